@@ -946,3 +946,155 @@ pub fn c03_sig_prop(model: &Model, ex: &Exec, sigs: &[usize], tape: &[u32], st: 
     Ok(())
 }
 
+
+// -------------------------------------------------------------------------------------------------
+// C12 (unit-level relations, usable with any tree)
+// -------------------------------------------------------------------------------------------------
+
+use microscpi::parser::{parse, CommandCall, ParseError};
+use microscpi::Node;
+
+pub fn c12_show(call: &Option<CommandCall<'_>>) -> String {
+    match call {
+        None => "empty unit".to_string(),
+        Some(c) => format!(
+            "call(node {:p}, header {:?}, query {}, args {:?}, terminated {})",
+            c.node,
+            c.header.map(|h| h as *const Node),
+            c.query,
+            c.args,
+            c.terminated
+        ),
+    }
+}
+
+pub fn c12_show_res(r: &Result<(&[u8], Option<CommandCall<'_>>), ParseError>) -> String {
+    match r {
+        Ok((rem, call)) => format!("Ok({} bytes left, {})", rem.len(), c12_show(call)),
+        Err(e) => format!("Err({:?})", e),
+    }
+}
+
+pub fn c12_node_for_ctx(root: &'static Node, ctx: &[String]) -> Option<&'static Node> {
+    let mut n = root;
+    for c in ctx {
+        n = n.child(c)?;
+    }
+    Some(n)
+}
+
+/// Generated well-formed units: prefixes, tails.
+pub fn c12_unit_prop(
+    model: &Model, ix: &Index, root: &'static Node, tape: &[u32], st: &mut Stats,
+) -> Result<(), String> {
+    let mut t = Tape::new(tape);
+    let mut cfg = GenCfg::default();
+    cfg.lit.newlines = true;
+    cfg.w_unit = [6, 3, 2, 1];
+    // walk a few units to get a non-root context
+    let mut ctx: Vec<String> = Vec::new();
+    let hops = t.below(3);
+    for _ in 0..hops {
+        let u = gen::gen_unit(&mut t, ix, &ctx, &cfg);
+        if let Some(c) = model.resolve(&ctx, &u.header).new_ctx {
+            if model.node_exists(&c) {
+                ctx = c;
+            }
+        }
+    }
+    let start = c12_node_for_ctx(root, &ctx).ok_or("harness: context node missing")?;
+    let unit = gen::gen_unit(&mut t, ix, &ctx, &cfg);
+    let res = model.resolve(&ctx, &unit.header);
+    let mut u = Vec::new();
+    unit.render(&mut u);
+    u.push(if t.chance(1, 2) { b'\n' } else { b';' });
+    let tail_len = t.below(10);
+    let tail: Vec<u8> = (0..tail_len)
+        .map(|_| match t.weighted(&[3, 2, 1]) {
+            0 => vcore::streams::ALPHABET[t.below(vcore::streams::ALPHABET.len())],
+            1 => b"'\"\n#;"[t.below(5)],
+            _ => t.byte(),
+        })
+        .collect();
+    let mut full = u.clone();
+    full.extend_from_slice(&tail);
+    let r = parse(root, start, &full);
+    if let Err(ParseError::Incomplete) = r {
+        return Err(format!("parse('{}') = Incomplete although it starts with the complete unit '{}'", esc(&full), esc(&u)));
+    }
+    let r_alone = parse(root, start, &u);
+    match (&r_alone, res.node_exists) {
+        (Ok((rem, call)), _) => {
+            if !rem.is_empty() {
+                return Err(format!("parse('{}') left {} bytes of a single well-formed unit", esc(&u), rem.len()));
+            }
+            match &r {
+                Ok((rem2, call2)) if *rem2 == &tail[..] && call2 == call => {}
+                other => {
+                    return Err(format!(
+                        "parse('{}') = {} but parse('{}') = {}",
+                        esc(&u),
+                        c12_show(call),
+                        esc(&full),
+                        c12_show_res(other)
+                    ))
+                }
+            }
+            st.class("unit accepted");
+            let has_payload_newline = unit.args.iter().any(|a| a.payload().map(|p| p.contains(&b'\n')).unwrap_or(false));
+            if has_payload_newline {
+                st.class("unit with payload newline");
+            }
+            if has_payload_newline || !tail.is_empty() {
+                st.nontrivial(&full);
+            }
+        }
+        (Err(ParseError::Incomplete), _) => {
+            return Err(format!("parse('{}') = Incomplete for a complete well-formed unit", esc(&u)));
+        }
+        // whether a well-formed unit is accepted is the business of C01/C03/C08, not of C12
+        (Err(_), true) => st.class("unit rejected although its header is defined"),
+        (Err(_), false) => st.class("unit with undefined header"),
+    }
+    // proper prefixes: never accepted; if rejected while newline-terminated, the full unit (a
+    // continuation) must not be accepted
+    let accepted = r_alone.is_ok();
+    for k in 0..u.len() {
+        let p = &u[..k];
+        st.evals_add(1);
+        match parse(root, start, p) {
+            Ok((rem, call)) => {
+                // a prefix that is itself a complete unit can only arise from an empty unit
+                if call.is_some() || rem.len() != 0 {
+                    return Err(format!(
+                        "proper prefix '{}' of the single unit '{}' is accepted as {}",
+                        esc(p),
+                        esc(&u),
+                        c12_show(&call)
+                    ));
+                }
+                if accepted && !p.is_empty() {
+                    return Err(format!(
+                        "prefix '{}' is accepted as an empty unit but '{}' is accepted as one unit",
+                        esc(p),
+                        esc(&u)
+                    ));
+                }
+            }
+            Err(ParseError::Incomplete) => {}
+            Err(e) => {
+                if accepted && p.last() == Some(&b'\n') {
+                    return Err(format!(
+                        "parse('{}') is rejected with {:?} (not Incomplete), yet its continuation '{}' is accepted",
+                        esc(p),
+                        e,
+                        esc(&u)
+                    ));
+                }
+            }
+        }
+    }
+    st.sample(|| json!({ "context": ctx, "unit": esc(&u), "tail": esc(&tail) }));
+    Ok(())
+}
+
